@@ -159,6 +159,32 @@ def lockstep_read(ctx, t, blocks, what, stats):
                                               "impl_says": (na[k] if k < len(na) else "<missing>")[:400], "model_says": (nb[k] if k < len(nb) else "<missing>")[:400]}})
     stats["divergences"] += nd
 
+def replay_blocks(ctx):
+    """--replay <file>: a replay JSON written by an earlier run (read case: header line + bytes; write case: script) is
+    re-run first, exactly as recorded"""
+    path = getattr(ctx, "replay", None)
+    if not path: return [], ""
+    try:
+        rec = json.load(open(path))
+    except Exception:
+        return [], ""
+    recs = [rec] + [b.get("detail", {}) for b in rec.get("broken", []) if isinstance(b.get("detail"), dict)]
+    rblocks, wtext = [], ""
+    for i, r in enumerate(recs):
+        head = r.get("case")
+        if head and "bytes_hex" in r and " mode=read" in head:
+            hexs = r["bytes_hex"]
+            parts = head.split()
+            parts[1] = "replay%d" % i
+            body = "\n".join("hex " + hexs[j:j + 4000] for j in range(0, max(len(hexs), 1), 4000)) if hexs else "hex -"
+            rblocks.append(("replay%d" % i, " ".join(parts) + "\n" + body + "\nend\n"))
+        if r.get("script"):
+            lines = list(r["script"])
+            if lines and lines[0].startswith("case "):
+                p0 = lines[0].split(); p0[1] = "w0_replay%d" % i; lines[0] = " ".join(p0)
+                wtext += "\n".join(l for l in lines if l) + "\n"
+    return rblocks, wtext
+
 def new_stats():
     return {"evaluations": 0, "nontrivial": set(), "outcomes": {}, "divergences": 0}
 
@@ -290,11 +316,18 @@ def ascii_part_C07(ctx):
     thorough = not ctx.quick()
     cases, expect, wtext, wdescs = asciigen.generate(ctx.seed, thorough)
     blocks = split_cases(cases.text())
+    if thorough:      # more seeds of the same generator (ids made unique by a seed prefix; the corpus runs once)
+        for k in range(1, 6):
+            more, _, _, _ = asciigen.generate(ctx.seed + 7919 * k, True)
+            blocks += [("s%d:%s" % (k, cid), blk.replace("case " + cid, "case s%d:%s" % (k, cid), 1))
+                       for (cid, blk) in split_cases(more.text()) if not cid.startswith("corpus:")]
     t = build_tools(ctx, need_plain=any(" aslimit=" in b.split("\n", 1)[0] for _, b in blocks))
     ntok = token_differential(ctx, t)
     ctx.cov["evaluations"] += ntok
     ctx.cov.setdefault("ascii", {})["token_lines"] = ntok
     stats = new_stats()
+    rb, _ = replay_blocks(ctx)
+    if rb: lockstep_read(ctx, t, rb, "replay", stats)
     # corpus first: the fixed defects must now read as recorded (and never time out / crash)
     corpus = [b for b in blocks if b[0].startswith("corpus:")]
     lockstep_read(ctx, t, corpus, "corpus", stats)
@@ -325,9 +358,16 @@ def ascii_part_C06(ctx):
     add_coq(ctx, "Props/Properties_C06_ascii.v")
     thorough = not ctx.quick()
     cases, expect, wtext, wdescs = asciigen.generate(ctx.seed, thorough)
+    if thorough:
+        for k in range(1, 6):
+            _, _, wt, _ = asciigen.generate(ctx.seed + 7919 * k, True)
+            wtext += "".join(blk.replace("case " + cid, "case w%d%s" % (k, cid[1:]) if False else "case " + cid.split("_", 1)[0] + "s%d_" % k + cid.split("_", 1)[1], 1)
+                             for (cid, blk) in split_cases(wt))
     t = build_tools(ctx, need_plain=False)
     stats = new_stats()
-    produced = writer_lockstep(ctx, t, wtext, stats)
+    rb, rw = replay_blocks(ctx)
+    if rb: lockstep_read(ctx, t, rb, "replay", stats)
+    produced = writer_lockstep(ctx, t, rw + wtext, stats)
     # every file the real writer produced, read back in lock step under every configuration
     cfgs = [(m, c, b, a) for m in ("poly", "tet", "hex") for c in (0, 1) for b in (0, 1) for a in ("stream", "path")]
     if not thorough: cfgs = [x for x in cfgs if x[3] == "stream" or (x[1], x[2]) == (1, 1)]
